@@ -161,9 +161,17 @@ func c01Check(c c01Case) kit.Outcome {
 		// events the runtime received inside this invocation's window
 		var id string
 		var got []*Event
+		cut := false
 		for k := range tr.Events {
 			e := &tr.Events[k]
 			if !isRuntimeActor(e.Actor) || e.Kind != "return" || e.Call != "rt.next" || e.Status != 200 {
+				continue
+			}
+			if e.Err != "" {
+				// the process was killed while the event was still being transferred to it: no complete delivery to judge
+				if e.Seq > iss.Seq && e.Seq < ret.Seq {
+					cut = true
+				}
 				continue
 			}
 			if e.Seq > prevEnd && e.Seq < iss.Seq {
@@ -175,6 +183,20 @@ func c01Check(c c01Case) kit.Outcome {
 			}
 		}
 		prevEnd = ret.Seq
+		if cut && inv.Kind == "stall" && len(got) == 0 {
+			// a large event was still on its way when the function timeout expired: only the caller's outcome can be judged
+			out.Label("delivery-cut-by-timeout")
+			wantText := fmt.Sprintf("Task timed out after %d.00 seconds", c.TimeoutEnvS)
+			if ret.Status != 200 || ret.Text != wantText {
+				out.Violate("C01/timeout-outcome", "invocation %s: runtime stalled; caller got %d %q, expected %q", tag, ret.Status, clip(ret.Text, 200), wantText)
+				return out
+			}
+			continue
+		}
+		if inv.Kind != "stall" && ret.Status == 200 && strings.HasPrefix(ret.Text, "Task timed out") && run.starved(c.TimeoutMs) {
+			out.Inconclusive = "host starved: an invocation that should complete timed out"
+			return out
+		}
 		if len(got) == 0 {
 			out.Violate("C01/not-delivered", "invocation %s (%s) never reached the runtime; caller got %d %q", tag, inv.Kind, ret.Status, ret.Text)
 			return out
@@ -329,7 +351,7 @@ var c01CtxGen = rapid.OneOf(
 
 func c01Gen(t *rapid.T) c01Case {
 	n := rapid.IntRange(1, 6).Draw(t, "n")
-	c := c01Case{TimeoutMs: 5000, TimeoutEnvS: rapid.IntRange(1, 900).Draw(t, "timeoutEnvS"), Ext: rapid.IntRange(0, 3).Draw(t, "ext") == 0}
+	c := c01Case{TimeoutMs: 20000, TimeoutEnvS: rapid.IntRange(1, 900).Draw(t, "timeoutEnvS"), Ext: rapid.IntRange(0, 3).Draw(t, "ext") == 0}
 	if rapid.IntRange(0, 3).Draw(t, "fn") == 0 {
 		c.FnName = rapid.StringMatching(`[a-zA-Z][a-zA-Z0-9_-]{0,20}`).Draw(t, "fnName")
 	}
@@ -357,7 +379,16 @@ func c01Gen(t *rapid.T) c01Case {
 		c.Invs = append(c.Invs, inv)
 	}
 	if stalls > 0 {
-		c.TimeoutMs = int64(rapid.SampledFrom([]int{200, 350}).Draw(t, "timeoutMs"))
+		// the short function timeout applies to every invocation of the instance: nothing may need long to transfer
+		c.TimeoutMs = int64(rapid.SampledFrom([]int{300, 450}).Draw(t, "timeoutMs"))
+		for i := range c.Invs {
+			if c.Invs[i].Payload.Len > 65536 {
+				c.Invs[i].Payload.Len = 65536 - i
+			}
+			if c.Invs[i].Kind == "oversize" {
+				c.Invs[i].Kind = "ok"
+			}
+		}
 	} else if rapid.IntRange(0, 3).Draw(t, "slowInit") == 0 {
 		c.InitDelayMs = rapid.IntRange(400, 900).Draw(t, "initDelayMs")
 	}
